@@ -32,6 +32,7 @@ EPS_GUARD = 1e-14
 TOL_BW = 1e-9
 TOL_PRED = 1e-6
 REG = 1e-3
+AGOP_TOL = 1e-9   # entries of the normalised AGOP (max entry 1); measured worst deviation is reported in the evidence
 
 
 def make_data(p):
@@ -106,8 +107,8 @@ def numpy_median_interval(p, centers, mat):
 
 def grad_eps_pairs(p, model, rec):
     """Number of pairs of *distinct* centers that the gradient (AGOP) code of the kernel treats as coincident in some
-    iterate of this fit: its absolute threshold `eps` (1e-10) is compared with the distance (L2, light, Lpq) or with
-    distance^q (product kernel).  Such a pair contributes no gradient at this scale but does at a larger one."""
+    iterate of this fit: its absolute threshold `eps` (1e-10) is compared with the distance in the kernel's own norm (every
+    kernel, since the product-kernel mask was repaired).  Such a pair contributes no gradient at this scale but does at a larger one."""
     import numpy as np
     kind = KIND[p['kernel']]
     eps = float(getattr(model.kernel_obj, 'eps', 0.0))
@@ -125,8 +126,6 @@ def grad_eps_pairs(p, model, rec):
             U = C if mat is None else (C * mat[None, :] if mat.ndim == 1 else C @ mat)
             pn = {'laplace': 2.0, 'product': p['q'], 'lpq': p.get('p')}[kind]
             D = (np.abs(U[:, None, :] - U[None, :, :]) ** pn).sum(-1) ** (1.0 / pn)
-            if kind == 'product':
-                D = D ** p['q']
         worst = max(worst, int(((D < eps) & off).sum()))
     return worst
 
@@ -225,8 +224,7 @@ def run_fit_case(p, drv):
                     and abs(s[mc.best_iter] - s[model.best_iter]) <= max(1e-7, 10 * allow) * max(abs(s[model.best_iter]), 1e-300):
                 ties += 1
                 continue
-            # diagnosis: the gradient code's absolute coincidence threshold eps=1e-10 (compared with dist, or dist^q for the
-            # product kernel) masks pairs of distinct centers at one scale only
+            # diagnosis: the gradient code's absolute coincidence threshold eps=1e-10 (compared with the distance) masks pairs of distinct centers at one scale only
             n_masked = max(grad_eps_pairs(p, mc, rc), grad_eps_pairs(p, model, rec)) if p['iters'] > 0 else 0
             sig = f'C19:not-scale-invariant:grad-eps-threshold:{type(kobj).__name__}' if n_masked else 'C19:not-scale-invariant'
             res['failures'].append({'signature': sig,
@@ -254,6 +252,67 @@ def run_fit_case(p, drv):
                      'base': base, 'stored_bandwidth': bw, 'model_median': [m_lo, m_hi], 'numpy_median': [o_lo, o_hi],
                      'best_iter': model.best_iter, 'val_scores': rec.real_scores, 'scales': p['scales'], 'worst_rel_pred_diff': worst,
                      'prediction_allowance': worst_allow, 'gram_rounding_allowance': g1}
+    return res
+
+
+def run_agop_step(p, drv):
+    """Correspondence of `Model/AgopStep.lean` (the AGOP step whose scale covariance C19 proves) with `RFM.fit_M`:
+    centers, coefficients and feature transform are set on an unfitted RFM, `fit_M(inplace=False)` returns the
+    max-normalised AGOP; the model composes C04's closed-form gradients, C14's `GᵀG` and the normalisation."""
+    import numpy as np
+    import torch
+    from xrfm.rfm_src import RFM
+    res = {'family': p['family'], 'params': p, 'disagreements': [], 'failures': [], 'dist': {}}
+    rs = np.random.RandomState(p['seed'])
+    n, d, f = p['n'], p['d'], p['outputs']
+    X = rs.randn(n, d)
+    A = rs.randn(n, f) * np.array([1.0, 3.0, 0.3])[:f][None, :]
+    kind = KIND[p['kernel']]
+    T = None
+    if p['transform'] == 'full':
+        B = rs.randn(d, d + 1)
+        T = B @ B.T
+        T = (T + T.T) / 2 / np.abs(T).max()
+    t = lambda a: torch.from_numpy(np.ascontiguousarray(a)).to(torch.float64)
+    model = RFM(kernel=p['kernel'], bandwidth=p['base'], exponent=p['q'], norm_p=p.get('p'), bandwidth_mode='constant',
+                diag=False, device='cpu', verbose=False, tuning_metric='mse')
+    model.centers, model.weights = t(X), t(A)
+    model.total_points_to_sample = 20_000        # what _initialize_fit_parameters sets for small problems
+    model.center_grads = False                   # fit's default
+    if T is not None:
+        if model.use_sqrtM:
+            model.sqrtM, model.M = t(T), t(T @ T)
+        else:
+            model.M = t(T)
+    try:
+        M_impl = model.fit_M(t(X), f, M_batch_size=p['batch'], inplace=False).double().numpy()
+        if model.use_sqrtM:
+            # stable_matrix_power adds 1e-8 to the diagonal of the normalised matrix IN PLACE before the SVD (C14): the
+            # returned matrix is the normalised AGOP + 1e-8·I
+            M_impl = M_impl - 1e-8 * np.eye(d)
+    except Exception as e:
+        res['failures'].append({'signature': f'C19:raises:{type(e).__name__}', 'detail': f'fit_M, {p["kernel"]}: {str(e)[:300]}'})
+        return res
+    tr = None if T is None else {'kind': 'full', 'cols': core.fl(T.T)}
+    ans = drv.ask({'op': 'agopstep', 'kind': kind, 'q': core.f2b(p['q']), 'p': core.f2b(p.get('p') or 0.0), 'L': core.f2b(p['base']),
+                   'grad_eps': core.f2b(float(getattr(model.kernel_obj, 'eps', 1e-10))), 'jitter': core.f2b(1e-30),
+                   'transform': tr, 'x': core.fl(X), 'alpha': core.fl(A)})
+    ratio = 0.0
+    if 'error' in ans:
+        res['disagreements'].append({'detail': f'model rejects the case: {ans["error"]}'})
+    else:
+        M_model = np.array(core.unfl(ans['M']), dtype=np.float64).reshape(d, d)
+        err = float(np.abs(M_impl - M_model).max())
+        ratio = err / AGOP_TOL
+        if not err <= AGOP_TOL:
+            res['disagreements'].append({'detail': f'normalised AGOP of fit_M differs from the model by {err:.3e} (max entry 1, allowance {AGOP_TOL}); '
+                                                   f'{p["kernel"]}, q={p["q"]}, p={p.get("p")}, transform={p["transform"]}, n={n}, d={d}, outputs={f}, batch={p["batch"]}'})
+    res['nontrivial'] = ['agop-step', p['kernel'], p['q'], p['transform'], n, d, f, p['seed']] if float(np.abs(M_impl).max()) > 0.5 else None
+    res['dist'] = {'kernel': p['kernel'], 'q': p['q'], 'transform_in_use': p['transform'], 'outputs': f,
+                   'batches': 'one' if p['batch'] is None or p['batch'] >= n else 'several'}
+    res['sample'] = {'kernel': p['kernel'], 'q': p['q'], 'p': p.get('p'), 'transform': p['transform'], 'n': n, 'd': d, 'outputs': f,
+                     'agop_err_over_allowance': ratio}
+    res['metrics'] = {'agop': ratio}
     return res
 
 
@@ -291,7 +350,8 @@ def execute(chunk):
     out = []
     try:
         for p in chunk['cases']:
-            out.append(run_sum_power(p, drv) if p['family'] == 'sum-power-adaptive' else run_fit_case(p, drv))
+            out.append(run_sum_power(p, drv) if p['family'] == 'sum-power-adaptive' else
+                       run_agop_step(p, drv) if p['family'] == 'agop-step' else run_fit_case(p, drv))
     finally:
         drv.close()
     return out
@@ -332,6 +392,16 @@ def gen_cases(run):
         for iters in ([0, 2] if quick else [0, 1, 2, 3]):
             cases.append(dict(family='sum-power-adaptive', kernel=alias, q=r.choice(QS), base=1.0, diag=False, iters=iters, return_best=True,
                               n=12, d=3, nv=6, nt=3, outputs=1, seed=r.randint(0, 2 ** 31 - 1)))
+    # the AGOP step itself (Model/AgopStep.lean) against RFM.fit_M
+    for t in range(24 if quick else 240):
+        kernel = ['l2', 'l1', 'lpq', 'l2_high_dim'][t % 4]
+        q = r.choice([1.3, 1.7, 2.0]) if kernel == 'l2_high_dim' else r.choice(QS)
+        q = min(q, 1.7) if kernel == 'lpq' else q
+        pn = round(r.uniform(max(q, 0.6), 2.0), 3) if kernel == 'lpq' else None
+        n = r.randint(3, 24)
+        cases.append(dict(family='agop-step', kernel=kernel, q=q, p=pn, base=r.choice([0.5, 1.0, 2.0, 5.0]), n=n, d=r.randint(1, 5),
+                          outputs=r.choice([1, 2, 3]), transform=['none', 'full'][(t // 4) % 2], batch=r.choice([None, None, max(1, n // 3)]),
+                          seed=r.randint(0, 2 ** 31 - 1)))
     r.shuffle(cases)
     return cases
 
@@ -351,7 +421,7 @@ def check(run):
                        'pairwise distinct rows: the median distance is >= 1e-14 at every scale (the `< 1e-14 -> 1` guard of _adapt_bandwidth does not fire)',
                        'early_stop_rfm=False, solver "solve", reg=1e-3, float64 tensors, CPU',
                        'in about a third of the fits the validation scores are scripted (same script at every scale) to place the selected iterate first / in the middle / last',
-                       'theorem fit_scale_invariant is conditional on a scale-covariant AGOP step (not proved); the correspondence tests it end to end',
+                       'theorem fit_scale_invariant_concrete covers the whole fit with the AGOP step of Model/AgopStep.lean (1e-30 jitter idealised to 0, no centring, all centers used); that model is compared with RFM.fit_M in the family agop-step (general position, n <= 24, light kernel with q >= 1.3)',
                        'if rescaling changes the selected iterate only because two validation scores agree to 1e-7 relative, the case is counted as near-tie, not as a failure']
     _single_thread_blas()
     run.lean()
@@ -361,7 +431,11 @@ def check(run):
     results = core.pmap(MOD, [{'cases': c} for c in core.chunks(cases, 64)])
     run.absorb('c19', results)
     run.extra['fits'] = sum(1 + len(c.get('scales', [])) for c in cases if c['family'] == 'adaptive-fit')
-    run.extra['tolerances'] = {'bandwidth_rel': TOL_BW, 'prediction_rel': f'{TOL_PRED} + (1+iters) * first-order distance-rounding bound (per case, see samples)'}
+    worst = 0.0
+    for res in results:
+        worst = max(worst, (res.get('metrics') or {}).get('agop', 0.0))
+    run.extra['agop_step_worst_err_over_allowance'] = worst
+    run.extra['tolerances'] = {'agop_step_abs': AGOP_TOL, 'bandwidth_rel': TOL_BW, 'prediction_rel': f'{TOL_PRED} + (1+iters) * first-order distance-rounding bound (per case, see samples)'}
 
 
 def replay(run, payload):
